@@ -65,7 +65,8 @@ def c09():
     for name, (cls, kw) in SOLVERS.items():
         ref = cls(Forest(S=11, p=0.2), verbose=0, **kw); rs = result_of(ref.solve(400)); nref = rs["iteration"]
         plan = ([(1, 1, 1, True, False), (3, 2, 2, False, True), (min(7, nref - 1), 3, 5, True, False), (2, 1, 3, False, True), (5, 5, 1, True, True)] if TH
-                else [(3, 2, 2, bool(len(name) % 2), name in ("rvi", "pi")), (min(7, nref - 1), 3, 5, not bool(len(name) % 2), False)])
+                else [(3, 2, 2, bool(len(name) % 2), name in ("rvi", "pi")), (min(7, nref - 1), 3, 5, not bool(len(name) % 2), False), (nref - 1, 1, 2, True, False), (max(1, nref - 2), 2, 1, False, False)])
+        plan = sorted(set(plan))       # interruption points just before convergence matter: state that only influences the stopping test shows there
         for (k, f, m, asyn, chain) in plan:
             if k >= nref: continue
             d = os.path.join(base, f"c09_{name}_{k}_{f}_{m}"); inp = dict(solver=name, problem="Forest(S=11,p=0.2)", interrupt_at=k, frequency=f, max_checkpoints=m, async_=asyn, chain=chain, **{x: y for x, y in kw.items()})
